@@ -1,7 +1,6 @@
 """C01 -- worker budget and legal trial life cycle in every tuning run."""
 from pyvc.spec import *
 from contracts.iface import *
-from contracts.c12 import Tuner_run  # noqa: F401,E402  (the tuning loop itself: worker budget and life cycle over whole runs, bounded)
 
 LEVEL = "exploration"
 TUNER = "syne_tune.tuner"
@@ -130,13 +129,22 @@ class Tuner_schedule_new_task:
         }
 
 
-@contract(TUNER + ":Tuner._schedule_new_tasks", props=("C01", "C02"))
+@contract(TUNER + ":Tuner._schedule_new_tasks", props=("C01", "C02", "C12"))
 class Tuner_schedule_new_tasks:
     params = dict(self=Obj("Tuner"), running_trials_ids=SetT(Int))
     ghost = GHOST
     unbounded = False
     shapes = [{"self.n_workers": k, "ret.TrialBackend.busy_trial_ids": b} for k in (1, 2) for b in (0, 1, 2) if b <= k]
-    raises = {"StopIteration": True}
+    raises = {"StopIteration": "exhausted"}
+
+    def exhausted(old, s):
+        # the searcher ran out in the middle of a batch: what was started before is still the tuner's business
+        a = old.G.started
+        b = s.G.started
+        return {
+            "started-before-exhaustion-are-polled": forall(range(0, 3), lambda i: (a + i) in s.running_trials_ids if a + i < b else True) if old.self.start_jobs_without_delay else True,
+            "worker-budget": len(s.running_trials_ids) <= old.self.n_workers,
+        }
 
     def requires(s):
         return {
@@ -157,5 +165,12 @@ class Tuner_schedule_new_tasks:
             "worker-budget": len(s.running_trials_ids) <= old.self.n_workers,
             # every trial started in this call is in the CALLER's running set (it will be polled)
             "started-trials-are-polled": forall(range(0, 3), lambda i: (a + i) in s.running_trials_ids if a + i < b else True),
+            # the same for the default mode alone (the running set is never replaced there; F9 cannot mask a regression)
+            "started-trials-are-polled[without-delay]": forall(range(0, 3), lambda i: (a + i) in s.running_trials_ids if a + i < b else True) if old.self.start_jobs_without_delay else True,
             "at-most-n_workers-starts": b - a <= old.self.n_workers,
         }
+
+
+# at the end: contracts.c12 imports this module for Tuner_schedule_new_tasks (mutual import)
+from contracts.c12 import Tuner_run  # noqa: F401,E402  (the tuning loop itself: worker budget and life cycle over whole runs, bounded)
+from contracts.c10 import ScenarioSim, SimState_remove_events, SimState_push, SimState_next_until  # noqa: F401,E402  (simulator back end: event order = life-cycle order)
